@@ -3,7 +3,7 @@ import core
 from core import hx, gen_mag
 
 ID = "C01"
-READY = False
+READY = True
 ORACLE = "c01"
 HARNESS_BIN = "c01"
 NCASES = {"quick": 9000, "thorough": 120000}
